@@ -44,9 +44,35 @@ def one_case(rng, tier):
     return case.line()
 
 
+def history_case(rng):
+    """class_derivative / set_derivative answers must not depend on what is already cached: take
+    derivatives of a term, then query its complement (and the built-in constant pairs empty/Sigma*,
+    eps/Sigma+) with valid and invalid class ids"""
+    al = Alphabet(rng)
+    case = Case()
+    k = rng.random()
+    if k < 0.5:
+        x = case.push(rng.choice(["all", "none", "eps", "splus", "allchar"]))
+    else:
+        x = gen_term(rng, case, al, rng.choice([1, 2]), [])
+    for c in rng.sample(al.probe_chars(), 2):
+        case.push("deriv %d %d" % (x, c))
+    if rng.random() < 0.5:
+        case.obs("mem %d %s" % (x, word([al.rand_char(rng) for _ in range(rng.choice([1, 2, 3]))])))
+    y = case.push("comp %d" % x)
+    for cid in ["0", "1", "c", "2"]:
+        case.push("classder %d %s" % (y, cid))
+    for cid in rng.sample(["0", "1", "c", "3"], 2):
+        case.push("classder %d %s" % (x, cid))
+    a, b = sorted(rng.sample(al.probe_chars(), 2))
+    case.push("setder %d %d %d" % (y, a, b))
+    return case.line()
+
+
 def generate(rng, tier):
     n = 4000 if tier == "quick" else 40000
     cases = [one_case(rng, tier) for _ in range(n)]
+    cases += [history_case(rng) for _ in range(400 if tier == "quick" else 4000)]
     # the D2 shape: a set that starts in a gap and ends inside the next interval
     cases += ["range 10 20 ; range 30 40 ; union 0 1 ; setder 2 25 35 ; setder 2 21 29 ; setder 2 15 25 ; setder 2 10 20 ; setder 2 0 9 ; setder 2 41 196607 ; setder 2 29 30"]
     info = {"rule": "random terms; derivatives w.r.t. every kind of character (range end points, the characters just outside, 0/MAX), set_derivative with sets over the critical points (inside one class, inside the complement, straddling), class_derivative with valid and invalid ids, str_derivative; each derivative is judged by membership of all words <= k against the quotient denotation; non-trivial = at least one operator",
